@@ -250,7 +250,7 @@ theorem invC_begin {w : World} {com : SGraph} {otx : Nat → Option STx} (h : In
     by_cases e : k' = k
     · simp only [e, if_true, Option.some.injEq] at hk'
       subst hk'
-      exact ⟨_, by rw [hget]; simp, rfl, rfl, rfl, Nat.le_refl _⟩
+      exact ⟨⟨.active, iso, w.mgr.epoch, [], [], none⟩, by rw [hget]; simp, rfl, rfl, rfl, Nat.le_refl _⟩
     · simp only [e, if_false] at hk'
       obtain ⟨t, a, b⟩ := h.mgr.active k' slot hk'
       have : slot ≠ w.mgr.slots.length := by have := get_lt a; omega
@@ -276,7 +276,7 @@ theorem invC_begin {w : World} {com : SGraph} {otx : Nat → Option STx} (h : In
     by_cases e : k' = k
     · simp only [e, if_true, Option.some.injEq] at ht'
       subst ht'
-      exact ⟨by intro x hx; cases hx, rfl⟩
+      exact ⟨(by intro x hx; cases hx), rfl⟩
     · simp only [e, if_false] at ht'; exact h.creat k' t' ht'
   · refine tabRel_begin h.nodes h.mgr k iso hk hcur ?_
     intro k'
@@ -328,8 +328,7 @@ theorem invC_commit {w : World} {com : SGraph} {otx : Nat → Option STx} (h : I
     InvC { w with store := w.store.finalize (txIdOf slot) (w.mgr.epoch + 1),
                   mgr := ⟨w.mgr.epoch + 1, w.mgr.slots.set slot (some t')⟩, cur := aset w.cur k none }
       (ot.writes.foldl SGraph.apply com) (fun k' => if k' = k then none else otx k') := by
-  have hcur : ∀ k', World.curOf { w with store := w.store.finalize (txIdOf slot) (w.mgr.epoch + 1),
-        mgr := ⟨w.mgr.epoch + 1, w.mgr.slots.set slot (some t')⟩, cur := aset w.cur k none } k' =
+  have hcur : ∀ k', World.curOf ⟨w.store.finalize (txIdOf slot) (w.mgr.epoch + 1), ⟨w.mgr.epoch + 1, w.mgr.slots.set slot (some t')⟩, aset w.cur k none⟩ k' =
       if k' = k then none else w.curOf k' := fun k' => curOf_aset w k k' _ _ _
   obtain ⟨hcN, hcE⟩ := foldl_apply_create ot.writes com (h.creat k ot hot).1
   have hotN : otN otx k = some (ot.snap.nodes, wsNodes ot.writes) := by simp [otN, hot]
@@ -363,8 +362,7 @@ theorem invC_rollback {w : World} {com : SGraph} {otx : Nat → Option STx} (h :
     InvC { w with store := w.store.discard (txIdOf slot),
                   mgr := { w.mgr with slots := w.mgr.slots.set slot (some t') }, cur := aset w.cur k none }
       com (fun k' => if k' = k then none else otx k') := by
-  have hcur : ∀ k', World.curOf { w with store := w.store.discard (txIdOf slot),
-        mgr := { w.mgr with slots := w.mgr.slots.set slot (some t') }, cur := aset w.cur k none } k' =
+  have hcur : ∀ k', World.curOf ⟨w.store.discard (txIdOf slot), ⟨w.mgr.epoch, w.mgr.slots.set slot (some t')⟩, aset w.cur k none⟩ k' =
       if k' = k then none else w.curOf k' := fun k' => curOf_aset w k k' _ _ _
   refine ⟨storeOK_discard _ _ h.store, mgrOK_close h.mgr hk hcur _ (Nat.le_refl _) t', sess_close h k hcur, ?_, ?_, ?_⟩
   · intro k' t'' ht'
@@ -385,5 +383,421 @@ theorem invC_rollback {w : World} {com : SGraph} {otx : Nat → Option STx} (h :
     by_cases e : k' = k
     · simp [otE, e]
     · simp [otE, e]
+
+
+/-! ### equations for the session calls -/
+
+theorem begin_some {w : World} {k s : Nat} (iso : Iso) (h : w.curOf k = some s) :
+    w.begin k iso = (w, .err "invalid") := by
+  unfold World.begin; rw [h]
+
+theorem begin_none {w : World} {k : Nat} (iso : Iso) (h : w.curOf k = none) :
+    w.begin k iso = ({ w with mgr := (w.mgr.begin iso).1, cur := aset w.cur k (some w.mgr.slots.length) }, .ok) := by
+  unfold World.begin; rw [h]; rfl
+
+theorem commit_none {w : World} {k : Nat} (h : w.curOf k = none) : w.commit k = (w, .err "invalid") := by
+  unfold World.commit; rw [h]
+
+theorem commit_some {w : World} {k slot : Nat} {t : Tx} (h : w.curOf k = some slot) (hg : w.mgr.get slot = some t)
+    (ha : t.state = .active) (hw : t.wset = []) (hr : t.rset = []) :
+    w.commit k = ({ w with store := w.store.finalize (txIdOf slot) (w.mgr.epoch + 1),
+                           mgr := ⟨w.mgr.epoch + 1, w.mgr.slots.set slot (some { t with state := .committed, cepoch := some (w.mgr.epoch + 1) })⟩,
+                           cur := aset w.cur k none }, .ok) := by
+  unfold World.commit; rw [h]
+  simp only [commit_ok_of_empty w.mgr slot t hg ha hw hr]
+
+theorem rollback_none {w : World} {k : Nat} (h : w.curOf k = none) : w.rollback k = (w, .err "invalid") := by
+  unfold World.rollback; rw [h]
+
+theorem rollback_some {w : World} {k slot : Nat} {t : Tx} (h : w.curOf k = some slot) (hg : w.mgr.get slot = some t)
+    (ha : t.state = .active) :
+    w.rollback k = ({ w with store := w.store.discard (txIdOf slot),
+                             mgr := { w.mgr with slots := w.mgr.slots.set slot (some { t with state := .aborted }) },
+                             cur := aset w.cur k none }, .ok) := by
+  unfold World.rollback; rw [h]
+  simp only [abort_ok w.mgr slot t hg ha, if_true]
+
+theorem writeCtx_some {w : World} {k slot : Nat} (h : w.curOf k = some slot) :
+    w.writeCtx k = (w, pendingEpoch, txIdOf slot) := by
+  unfold World.writeCtx; rw [h]
+
+theorem writeCtx_none {w : World} {k : Nat} (h : w.curOf k = none) :
+    w.writeCtx k = (w.freshEpoch.1, w.mgr.epoch + 1, systemTx) := by
+  unfold World.writeCtx; rw [h]; rfl
+
+theorem freshEpoch_epoch (w : World) : w.freshEpoch.1.mgr.epoch = w.mgr.epoch + 1 := rfl
+theorem freshEpoch_curOf (w : World) (k : Nat) : w.freshEpoch.1.curOf k = w.curOf k := rfl
+
+/-! ### every step preserves the invariant -/
+
+theorem Inv.otx_none {z : St} (h : Inv z) {k : Nat} (hk : z.w.curOf k = none) : (aget z.txs k).getD none = none := by
+  have := h.sess k
+  rw [hk] at this
+  cases hx : otxOf z k with
+  | none => exact hx
+  | some t => rw [hx] at this; cases this
+
+theorem Inv.otx_some {z : St} (h : Inv z) {k slot : Nat} (hk : z.w.curOf k = some slot) :
+    ∃ t, (aget z.txs k).getD none = some t := by
+  have := h.sess k
+  rw [hk] at this
+  cases hx : otxOf z k with
+  | none => rw [hx] at this; cases this
+  | some t => exact ⟨t, hx⟩
+
+theorem otxOf_txs (z : St) (w' : World) (c' : SGraph) (k : Nat) (x : Option STx) (sq : Nat) (cm : List (Nat × List Nat))
+    (tc ab : List Nat) (k' : Nat) :
+    otxOf { w := w', committed := c', txs := aset z.txs k x, seq := sq, commits := cm, touched := tc, abortedTouched := ab } k' =
+      if k' = k then x else otxOf z k' := agetD_aset z.txs k k' x
+
+theorem inv_begin {z : St} (h : Inv z) (k : Nat) (iso : Iso) : Inv (z.step (.begin k iso)) := by
+  cases hk : z.w.curOf k with
+  | some s =>
+    obtain ⟨t, ht⟩ := h.otx_some hk
+    have : z.step (.begin k iso) = z := by
+      simp only [St.step, begin_some iso hk, ht, Option.isSome_some, if_true]
+    rw [this]; exact h
+  | none =>
+    have ht := h.otx_none hk
+    have : z.step (.begin k iso) =
+        { z with w := { z.w with mgr := (z.w.mgr.begin iso).1, cur := aset z.w.cur k (some z.w.mgr.slots.length) },
+                 txs := aset z.txs k (some { snap := z.committed, beginSeq := z.seq }) } := by
+      simp only [St.step, begin_none iso hk, ht, Option.isSome_none, Bool.false_eq_true, if_false]
+    rw [this]
+    refine (invC_begin h k iso z.seq hk).congr ?_
+    intro k'; exact otxOf_txs z _ _ k _ _ _ _ _ k'
+
+theorem inv_commit {z : St} (h : Inv z) (k : Nat) : Inv (z.step (.commit k)) := by
+  cases hk : z.w.curOf k with
+  | none =>
+    have ht := h.otx_none hk
+    have : z.step (.commit k) = { z with txs := aset z.txs k none } := by
+      simp only [St.step, commit_none hk, ht]
+    rw [this]
+    refine InvC.congr (w := z.w) (com := z.committed) h ?_
+    intro k'
+    rw [otxOf_txs z _ _ k _ _ _ _ _ k']
+    by_cases e : k' = k
+    · subst e; simp only [if_true]; exact ht.symm
+    · simp [e]
+  | some slot =>
+    obtain ⟨ot, hot⟩ := h.otx_some hk
+    obtain ⟨t, hg, ha, hw, hr, _⟩ := h.mgr.active k slot hk
+    have : z.step (.commit k) =
+        { z with w := { z.w with store := z.w.store.finalize (txIdOf slot) (z.w.mgr.epoch + 1),
+                                 mgr := ⟨z.w.mgr.epoch + 1, z.w.mgr.slots.set slot (some { t with state := .committed, cepoch := some (z.w.mgr.epoch + 1) })⟩,
+                                 cur := aset z.w.cur k none },
+                 committed := ot.writes.foldl SGraph.apply z.committed,
+                 txs := aset z.txs k none, seq := z.seq + 1, commits := (z.seq + 1, ot.modified) :: z.commits } := by
+      simp only [St.step, commit_some hk hg ha hw hr, hot]
+    rw [this]
+    refine (invC_commit h k slot t _ ot hk hg hot).congr ?_
+    intro k'; exact otxOf_txs z _ _ k _ _ _ _ _ k'
+
+theorem inv_rollback {z : St} (h : Inv z) (k : Nat) : Inv (z.step (.rollback k)) := by
+  cases hk : z.w.curOf k with
+  | none =>
+    have ht := h.otx_none hk
+    have : z.step (.rollback k) = { z with txs := aset z.txs k none } := by
+      simp only [St.step, rollback_none hk, ht]
+    rw [this]
+    refine InvC.congr (w := z.w) (com := z.committed) h ?_
+    intro k'
+    rw [otxOf_txs z _ _ k _ _ _ _ _ k']
+    by_cases e : k' = k
+    · subst e; simp only [if_true]; exact ht.symm
+    · simp [e]
+  | some slot =>
+    obtain ⟨ot, hot⟩ := h.otx_some hk
+    obtain ⟨t, hg, ha, _⟩ := h.mgr.active k slot hk
+    have : z.step (.rollback k) =
+        { z with w := { z.w with store := z.w.store.discard (txIdOf slot),
+                                 mgr := { z.w.mgr with slots := z.w.mgr.slots.set slot (some { t with state := .aborted }) },
+                                 cur := aset z.w.cur k none },
+                 txs := aset z.txs k none, abortedTouched := z.abortedTouched ++ ot.touchedKeys } := by
+      simp only [St.step, rollback_some hk hg ha, hot]
+    rw [this]
+    refine (invC_rollback h k slot _ hk).congr ?_
+    intro k'; exact otxOf_txs z _ _ k _ _ _ _ _ k'
+
+
+/-! #### creations -/
+
+theorem createNode_tx {w : World} {k slot : Nat} (ls : List Nat) (h : w.curOf k = some slot) :
+    w.createNode k ls = ({ w with store := (w.store.createNode ls pendingEpoch (txIdOf slot)).1 }, w.store.nextNode) := by
+  unfold World.createNode; rw [writeCtx_some h]; rfl
+
+theorem createNode_auto {w : World} {k : Nat} (ls : List Nat) (h : w.curOf k = none) :
+    w.createNode k ls =
+      ({ w.freshEpoch.1 with store := (w.freshEpoch.1.store.createNode ls w.freshEpoch.1.mgr.epoch systemTx).1 },
+       w.freshEpoch.1.store.nextNode) := by
+  unfold World.createNode; rw [writeCtx_none h]; rfl
+
+theorem createEdge_tx {w : World} {k slot : Nat} (a b ty : Nat) (h : w.curOf k = some slot) :
+    w.createEdge k a b ty = ({ w with store := (w.store.createEdge a b ty pendingEpoch (txIdOf slot)).1 }, w.store.nextEdge) := by
+  unfold World.createEdge; rw [writeCtx_some h]; rfl
+
+theorem createEdge_auto {w : World} {k : Nat} (a b ty : Nat) (h : w.curOf k = none) :
+    w.createEdge k a b ty =
+      ({ w.freshEpoch.1 with store := (w.freshEpoch.1.store.createEdge a b ty w.freshEpoch.1.mgr.epoch systemTx).1 },
+       w.freshEpoch.1.store.nextEdge) := by
+  unfold World.createEdge; rw [writeCtx_none h]; rfl
+
+theorem dbCreateNode_eq (w : World) (ls : List Nat) :
+    w.dbCreateNode ls =
+      ({ w.freshEpoch.1 with store := (w.freshEpoch.1.store.createNode ls w.freshEpoch.1.mgr.epoch systemTx).1 },
+       w.freshEpoch.1.store.nextNode) := rfl
+
+theorem inv_cn {z : St} (h : Inv z) (k : Nat) (ls : List Nat) : Inv (z.step (.cn k ls)) := by
+  cases hk : z.w.curOf k with
+  | some slot =>
+    obtain ⟨t, ht⟩ := h.otx_some hk
+    have : z.step (.cn k ls) =
+        { z with w := { z.w with store := (z.w.store.createNode ls pendingEpoch (txIdOf slot)).1 },
+                 txs := aset z.txs k (some { t with writes := t.writes ++ [.node z.w.store.nextNode ls] }) } := by
+      simp only [St.step, createNode_tx ls hk, ht]
+    rw [this]
+    refine (invC_addNodeTx h k slot t hk ht ls).congr ?_
+    intro k'; exact otxOf_txs z _ _ k _ _ _ _ _ k'
+  | none =>
+    have ht := h.otx_none hk
+    have : z.step (.cn k ls) =
+        { z with w := { z.w.freshEpoch.1 with store := (z.w.freshEpoch.1.store.createNode ls z.w.freshEpoch.1.mgr.epoch systemTx).1 },
+                 committed := z.committed.apply (.node z.w.freshEpoch.1.store.nextNode ls) } := by
+      simp only [St.step, createNode_auto ls hk, ht]
+    rw [this]
+    obtain ⟨h1, hb⟩ := invC_bump h
+    exact invC_addNodeAuto h1 hb ls
+
+theorem inv_dbcn {z : St} (h : Inv z) (ls : List Nat) : Inv (z.step (.dbcn ls)) := by
+  have : z.step (.dbcn ls) =
+      { z with w := { z.w.freshEpoch.1 with store := (z.w.freshEpoch.1.store.createNode ls z.w.freshEpoch.1.mgr.epoch systemTx).1 },
+               committed := z.committed.apply (.node z.w.freshEpoch.1.store.nextNode ls) } := by
+    simp only [St.step, dbCreateNode_eq]
+  rw [this]
+  obtain ⟨h1, hb⟩ := invC_bump h
+  exact invC_addNodeAuto h1 hb ls
+
+theorem inv_ce {z : St} (h : Inv z) (k a b ty : Nat) : Inv (z.step (.ce k a b ty)) := by
+  cases hk : z.w.curOf k with
+  | some slot =>
+    obtain ⟨t, ht⟩ := h.otx_some hk
+    have : z.step (.ce k a b ty) =
+        { z with w := { z.w with store := (z.w.store.createEdge a b ty pendingEpoch (txIdOf slot)).1 },
+                 txs := aset z.txs k (some { t with writes := t.writes ++ [.edge z.w.store.nextEdge ⟨a, b, ty⟩] }) } := by
+      simp only [St.step, createEdge_tx a b ty hk, ht]
+    rw [this]
+    refine (invC_addEdgeTx h k slot t hk ht a b ty).congr ?_
+    intro k'; exact otxOf_txs z _ _ k _ _ _ _ _ k'
+  | none =>
+    have ht := h.otx_none hk
+    have : z.step (.ce k a b ty) =
+        { z with w := { z.w.freshEpoch.1 with store := (z.w.freshEpoch.1.store.createEdge a b ty z.w.freshEpoch.1.mgr.epoch systemTx).1 },
+                 committed := z.committed.apply (.edge z.w.freshEpoch.1.store.nextEdge ⟨a, b, ty⟩) } := by
+      simp only [St.step, createEdge_auto a b ty hk, ht]
+    rw [this]
+    obtain ⟨h1, hb⟩ := invC_bump h
+    exact invC_addEdgeAuto h1 hb a b ty
+
+theorem createNodeAndEdge_tx {w : World} {k slot : Nat} (a l ty : Nat) (h : w.curOf k = some slot) :
+    w.createNodeAndEdge k a l ty =
+      ({ w with store := ((w.store.createNode [l] pendingEpoch (txIdOf slot)).1.createEdge a w.store.nextNode ty pendingEpoch (txIdOf slot)).1 },
+       w.store.nextNode, w.store.nextEdge) := by
+  unfold World.createNodeAndEdge; rw [writeCtx_some h]; rfl
+
+theorem createNodeAndEdge_auto {w : World} {k : Nat} (a l ty : Nat) (h : w.curOf k = none) :
+    w.createNodeAndEdge k a l ty =
+      ({ w.freshEpoch.1 with store := ((w.freshEpoch.1.store.createNode [l] w.freshEpoch.1.mgr.epoch systemTx).1.createEdge a
+            w.freshEpoch.1.store.nextNode ty w.freshEpoch.1.mgr.epoch systemTx).1 },
+       w.freshEpoch.1.store.nextNode, w.freshEpoch.1.store.nextEdge) := by
+  unfold World.createNodeAndEdge; rw [writeCtx_none h]; rfl
+
+theorem inv_qce {z : St} (h : Inv z) (k a ty l : Nat) : Inv (z.step (.qce k a ty l)) := by
+  by_cases hv : (z.w.scanAll k).contains a = true
+  · cases hk : z.w.curOf k with
+    | some slot =>
+      obtain ⟨t, ht⟩ := h.otx_some hk
+      have : z.step (.qce k a ty l) =
+          { z with w := { z.w with store := ((z.w.store.createNode [l] pendingEpoch (txIdOf slot)).1.createEdge a z.w.store.nextNode ty pendingEpoch (txIdOf slot)).1 },
+                   txs := aset z.txs k (some { t with writes := t.writes ++ [.node z.w.store.nextNode [l], .edge z.w.store.nextEdge ⟨a, z.w.store.nextNode, ty⟩] }) } := by
+        simp only [St.step, hv, if_true, createNodeAndEdge_tx a l ty hk, ht]
+      rw [this]
+      have h1 := invC_addNodeTx h k slot t hk ht [l]
+      have h2 := invC_addEdgeTx h1 k slot { t with writes := t.writes ++ [.node z.w.store.nextNode [l]] } hk (by simp) a z.w.store.nextNode ty
+      refine h2.congr ?_
+      intro k'
+      rw [otxOf_txs z _ _ k _ _ _ _ _ k']
+      by_cases e : k' = k
+      · simp only [e, if_true, List.append_assoc, List.cons_append, List.nil_append]; rfl
+      · simp only [e, if_false]
+    | none =>
+      have ht := h.otx_none hk
+      have : z.step (.qce k a ty l) =
+          { z with w := { z.w.freshEpoch.1 with store := ((z.w.freshEpoch.1.store.createNode [l] z.w.freshEpoch.1.mgr.epoch systemTx).1.createEdge a
+                            z.w.freshEpoch.1.store.nextNode ty z.w.freshEpoch.1.mgr.epoch systemTx).1 },
+                   committed := (z.committed.apply (.node z.w.freshEpoch.1.store.nextNode [l])).apply
+                      (.edge z.w.freshEpoch.1.store.nextEdge ⟨a, z.w.freshEpoch.1.store.nextNode, ty⟩) } := by
+        simp only [St.step, hv, if_true, createNodeAndEdge_auto a l ty hk, ht, List.foldl_cons, List.foldl_nil]
+      rw [this]
+      obtain ⟨h1, hb⟩ := invC_bump h
+      have h2 := invC_addNodeAuto h1 hb [l]
+      exact invC_addEdgeAuto h2 hb a z.w.freshEpoch.1.store.nextNode ty
+  · have : z.step (.qce k a ty l) = z := by
+      simp only [St.step, hv, if_false, Bool.false_eq_true]
+    rw [this]; exact h
+
+theorem qMerge_tx {w : World} {k slot : Nat} (l : Nat) (h : w.curOf k = some slot) :
+    w.qMerge k l =
+      if ((w.store.nodesByLabel l).filter (fun id => (w.store.getNodeTo id (w.ctx k).1 (w.ctx k).2).isSome)).isEmpty then
+        ({ w with store := (w.store.createNode [l] pendingEpoch (txIdOf slot)).1 }, some w.store.nextNode)
+      else (w, none) := by
+  unfold World.qMerge; rw [writeCtx_some h]; rfl
+
+theorem qMerge_auto {w : World} {k : Nat} (l : Nat) (h : w.curOf k = none) :
+    w.qMerge k l =
+      if ((w.store.nodesByLabel l).filter (fun id => (w.store.getNodeTo id (w.ctx k).1 (w.ctx k).2).isSome)).isEmpty then
+        ({ w.freshEpoch.1 with store := (w.freshEpoch.1.store.createNode [l] w.freshEpoch.1.mgr.epoch systemTx).1 },
+         some w.freshEpoch.1.store.nextNode)
+      else (w.freshEpoch.1, none) := by
+  unfold World.qMerge; rw [writeCtx_none h]; rfl
+
+theorem inv_qmerge {z : St} (h : Inv z) (k l : Nat) : Inv (z.step (.qmerge k l)) := by
+  cases hk : z.w.curOf k with
+  | some slot =>
+    obtain ⟨t, ht⟩ := h.otx_some hk
+    by_cases hc : ((z.w.store.nodesByLabel l).filter (fun id => (z.w.store.getNodeTo id (z.w.ctx k).1 (z.w.ctx k).2).isSome)).isEmpty = true
+    · have : z.step (.qmerge k l) =
+          { z with w := { z.w with store := (z.w.store.createNode [l] pendingEpoch (txIdOf slot)).1 },
+                   txs := aset z.txs k (some { t with writes := t.writes ++ [.node z.w.store.nextNode [l]] }) } := by
+        simp only [St.step, qMerge_tx l hk, hc, if_true, ht]
+      rw [this]
+      refine (invC_addNodeTx h k slot t hk ht [l]).congr ?_
+      intro k'; exact otxOf_txs z _ _ k _ _ _ _ _ k'
+    · have : z.step (.qmerge k l) = z := by
+        simp only [St.step, qMerge_tx l hk, hc, if_false, Bool.false_eq_true]
+      rw [this]; exact h
+  | none =>
+    have ht := h.otx_none hk
+    obtain ⟨h1, hb⟩ := invC_bump h
+    by_cases hc : ((z.w.store.nodesByLabel l).filter (fun id => (z.w.store.getNodeTo id (z.w.ctx k).1 (z.w.ctx k).2).isSome)).isEmpty = true
+    · have : z.step (.qmerge k l) =
+          { z with w := { z.w.freshEpoch.1 with store := (z.w.freshEpoch.1.store.createNode [l] z.w.freshEpoch.1.mgr.epoch systemTx).1 },
+                   committed := z.committed.apply (.node z.w.freshEpoch.1.store.nextNode [l]) } := by
+        simp only [St.step, qMerge_auto l hk, hc, if_true, ht]
+      rw [this]
+      exact invC_addNodeAuto h1 hb [l]
+    · have : z.step (.qmerge k l) = { z with w := z.w.freshEpoch.1 } := by
+        simp only [St.step, qMerge_auto l hk, hc, if_false, Bool.false_eq_true]
+      rw [this]
+      exact h1
+
+/-- **the invariant is preserved by every step** -/
+theorem inv_step {z : St} (h : Inv z) (op : Op) : Inv (z.step op) := by
+  cases op with
+  | begin k iso => exact inv_begin h k iso
+  | commit k => exact inv_commit h k
+  | rollback k => exact inv_rollback h k
+  | cn k ls => exact inv_cn h k ls
+  | ce k a b ty => exact inv_ce h k a b ty
+  | qce k a ty l => exact inv_qce h k a ty l
+  | dbcn ls => exact inv_dbcn h ls
+  | qmerge k l => exact inv_qmerge h k l
+
+theorem inv_foldl {z : St} (h : Inv z) (ops : List Op) : Inv (ops.foldl St.step z) := by
+  induction ops generalizing z with
+  | nil => exact h
+  | cons op rest ih => exact ih (inv_step h op)
+
+theorem inv_run (ops : List Op) : Inv (run ops) := inv_foldl inv_init ops
+
+/-! ### the epoch grows by at most one per step -/
+
+theorem step_w (z : St) (op : Op) : (z.step op).w = mstep z.w op := by
+  cases op with
+  | begin k iso => simp only [St.step, mstep]
+  | commit k => simp only [St.step, mstep]
+  | rollback k => simp only [St.step, mstep]
+  | cn k ls => simp only [St.step, mstep]; split <;> rfl
+  | ce k a b ty => simp only [St.step, mstep]; split <;> rfl
+  | qce k a ty l =>
+    simp only [St.step, mstep]
+    split
+    · split <;> rfl
+    · rfl
+  | dbcn ls => simp only [St.step, mstep]
+  | qmerge k l =>
+    simp only [St.step, mstep]
+    split
+    · split <;> rfl
+    · rfl
+
+theorem writeCtx_epoch (w : World) (k : Nat) : (w.writeCtx k).1.mgr.epoch ≤ w.mgr.epoch + 1 := by
+  unfold World.writeCtx
+  split
+  · exact Nat.le_succ _
+  · exact Nat.le_refl _
+
+theorem mgr_commit_epoch (m : Mgr) (i : Nat) : (m.commit i).1.epoch ≤ m.epoch + 1 := by
+  unfold Mgr.commit
+  split
+  · exact Nat.le_succ _
+  · split
+    · exact Nat.le_succ _
+    · split
+      · exact Nat.le_succ _
+      · split
+        · exact Nat.le_succ _
+        · exact Nat.le_refl _
+
+theorem mgr_abort_epoch (m : Mgr) (i : Nat) : (m.abort i).1.epoch = m.epoch := by
+  unfold Mgr.abort
+  split
+  · rfl
+  · split <;> rfl
+
+theorem mstep_epoch_le (w : World) (op : Op) : (mstep w op).mgr.epoch ≤ w.mgr.epoch + 1 := by
+  cases op with
+  | begin k iso =>
+    simp only [mstep]; unfold World.begin; split
+    · exact Nat.le_succ _
+    · exact Nat.le_succ _
+  | commit k =>
+    simp only [mstep]; unfold World.commit; split
+    · exact Nat.le_succ _
+    · exact mgr_commit_epoch _ _
+  | rollback k =>
+    simp only [mstep]; unfold World.rollback; split
+    · exact Nat.le_succ _
+    · show (w.mgr.abort _).1.epoch ≤ _
+      rw [mgr_abort_epoch]; exact Nat.le_succ _
+  | cn k ls => exact writeCtx_epoch w k
+  | ce k a b ty => exact writeCtx_epoch w k
+  | qce k a ty l =>
+    simp only [mstep]; split
+    · exact writeCtx_epoch w k
+    · exact Nat.le_succ _
+  | dbcn ls => exact Nat.le_refl _
+  | qmerge k l =>
+    simp only [mstep]; unfold World.qMerge
+    simp only
+    split
+    · exact writeCtx_epoch w k
+    · exact writeCtx_epoch w k
+
+theorem step_epoch_le (z : St) (op : Op) : (z.step op).w.mgr.epoch ≤ z.w.mgr.epoch + 1 := by
+  rw [step_w]; exact mstep_epoch_le z.w op
+
+theorem foldl_epoch_le (z : St) (ops : List Op) : (ops.foldl St.step z).w.mgr.epoch ≤ z.w.mgr.epoch + ops.length := by
+  induction ops generalizing z with
+  | nil => exact Nat.le_refl _
+  | cons op rest ih =>
+    have h1 := ih (z.step op)
+    have h2 := step_epoch_le z op
+    simp only [List.foldl_cons, List.length_cons]
+    omega
+
+theorem run_epoch_le (ops : List Op) : (run ops).w.mgr.epoch ≤ ops.length := by
+  have := foldl_epoch_le {} ops
+  simpa [run, TxMgr.init] using this
 
 end Grafeo.SessSpec
